@@ -351,9 +351,15 @@ echs_instant_rescale(echs_instant_t i, echs_scale_t tgt)
 			break;
 		case SCALE_HIJRI_UMMULQURA:
 			d = ht2mjd(dat_ummulqura, NM(dat_ummulqura), ymp);
+			if (UNLIKELY(!d)) {
+				goto nul;
+			}
 			break;
 		case SCALE_HIJRI_DIYANET:
 			d = ht2mjd(dat_diyanet, NM(dat_diyanet), ymp);
+			if (UNLIKELY(!d)) {
+				goto nul;
+			}
 			break;
 		default:
 			goto nul;
